@@ -178,17 +178,28 @@ class Gen:
             except UnicodeDecodeError:
                 pass
         o = rng.choice(opts)
-        if o == 'x': return 'x' + v.hex()
-        if o == 'd': return 'd' + str(int.from_bytes(v, 'big', signed=True))
+        up = rng.random() < .12
+        if up and o in ('x', 'd'): self.lenient = True       # upper-case value prefixes: accepted by some operand encoders only
+        if o == 'x': return ('X' if up else 'x') + v.hex()
+        if o == 'd': return ('D' if up else 'd') + str(int.from_bytes(v, 'big', signed=True))
         t = v.decode()
         q = rng.choice(['"', "'"])
         return f's{q}{t}{q}'
 
     def u1_sym(self, n):
         rng = self.rng
-        if n < 128 and rng.random() < .5: return 'd' + str(n)
-        if n >= 128 and rng.random() < .3: return 'd' + str(n - 256)
-        return 'x%02x' % n
+        up = rng.random() < .12
+        if up: self.lenient = True
+        if n < 128 and rng.random() < .5: return ('D' if up else 'd') + str(n)
+        if n >= 128 and rng.random() < .3: return ('D' if up else 'd') + str(n - 256)
+        return ('X%02x' if up else 'x%02x') % n
+
+    def pos_sym(self, x):
+        """operands of SWAP / CHECK_MULTISIG: unsigned decimal or hex"""
+        rng = self.rng
+        up = rng.random() < .12
+        if up: self.lenient = True
+        return (('D' if up else 'd') + str(x)) if rng.random() < .6 else (('X%02x' if up else 'x%02x') % x)
 
     def comment(self):
         rng = self.rng
@@ -289,12 +300,15 @@ class Gen:
                 except UnicodeDecodeError: pass
             return [s, ks, ('d' + str(cnt)) if rng.random() < .6 else 'x%02x' % cnt]
         if k == 'f4': return [s, 'x' + n[2].hex()]
-        if k == 'swap': return [s] + [('d' + str(x)) if rng.random() < .6 else 'x%02x' % x for x in n[2:4]]
-        if k == 'multisig': return [s] + [('d' + str(x)) if rng.random() < .6 else 'x%02x' % x for x in n[2:5]]
+        if k == 'swap': return [s] + [self.pos_sym(x) for x in n[2:4]]
+        if k == 'multisig': return [s] + [self.pos_sym(x) for x in n[2:5]]
         if k == 'bytes32': return [s, 'x' + n[2].hex()]
         raise AssertionError(k)
 
+    lenient = False       # set while rendering: the source uses a spelling the compiler may legitimately reject (never mis-assemble)
+
     def source(self, prog) -> str:
+        self.lenient = False
         syms = self.render(prog)
         rng = self.rng
         seps = [' ', '\n', '\t', '  ', ' \n ']
